@@ -133,6 +133,7 @@ type Machine struct {
 	deadlock             string
 	timers               []*timerRec
 	timersFired          int
+	timerBudget          int
 }
 
 func NewMachine(prog *ssa.Program) *Machine {
@@ -562,6 +563,7 @@ func (m *Machine) resetPath(p pending) {
 	m.deadlock = ""
 	m.timers = nil
 	m.timersFired = 0
+	m.timerBudget = 1000
 	m.clock = 0
 	m.lastNow = nil
 	m.timerOf = map[*Value]*timerRec{}
